@@ -4,6 +4,7 @@ import Reduino.Lang.Render
 import Reduino.Lang.InF
 import Reduino.Lang.Promote
 import Reduino.Lang.Libs
+import Reduino.Lang.Assemble
 /- `lang|tr|<sexpr>`, `lang|pyrun|<sexpr>|N|fuel`, `lang|crun|<sexpr>|N|fuel` -/
 namespace Reduino.Driver
 open Reduino.Lang
@@ -92,6 +93,27 @@ def handleLang (fields : List String) : Option String :=
       | .ok c => some ("ok " ++ hexOf ("\n".intercalate c.lines))
       | .error .breakInMainLoop => some "reject break-in-main-loop"
       | .error .outsideFragment => some "outside-fragment"
+  | ["assemble", n, setup, loop] =>
+    let kindOf (k : String) : Assemble.Kind :=
+      match k with
+      | "led" => .led | "rgb" => .rgb | "servo" => .servo | "motor" => .motor | "buzzer" => .buzzer | "button" => .button
+      | "pot" => .pot | "ultra" => .ultra | "lcd" => .lcd | _ => .serial
+    let items (s : String) : List Assemble.Item := (words s).filterMap fun w =>
+      match w.splitOn ":" with
+      | ["d", k, nm] => some (.decl (kindOf k) nm)
+      | ["u", nm] => some (.use nm)
+      | ["s", t] => some (.stmt t.toNat!)
+      | _ => none
+    let p : Assemble.Prog := { setup := items setup, loop := items loop }
+    let shw (e : Assemble.Ev) : Option String :=
+      match e with
+      | .cfg _ => none
+      | .use nm => some ("u:" ++ nm)
+      | .stmt t => some s!"s:{t}"
+      | .poll nm => some ("p:" ++ nm)
+    let pass := " ".intercalate ((Assemble.loopEvents p).filterMap shw)
+    let parts := [" ".intercalate ((Assemble.setupEvents p).filterMap shw)] ++ List.replicate n.toNat! pass
+    some (" ".intercalate (" | ".intercalate parts |>.splitOn " " |>.filter (· ≠ "")))
   | ["libs", decls] =>
     let ds : List Libs.Decl := (decls.splitOn ";").filterMap fun d =>
       match words d with
